@@ -1,7 +1,7 @@
 SPECIFICATION Spec
 CONSTANTS
   Clients = {"c1", "c2"}
-  Ids = {"s1", "s2"}
+  Ids = {"s1"}
   MaxCalls = 2
   Locked = TRUE
   StepGuard = TRUE
